@@ -1855,8 +1855,10 @@ func (k *Kernel) handleStateMachineAction(ctx context.Context, s *kState, act tm
 			var err error
 			updatedVote, err = k.cmspScheme.New(
 				act.Prevote.SignContent,
-				s.Voting.ValidatorSet.PubKeys,
-				string(s.Voting.ValidatorSet.PubKeyHash),
+				// The view the vote goes into, which may be the committing view
+				// with a different validator set than the voting view.
+				vrv.ValidatorSet.PubKeys,
+				string(vrv.ValidatorSet.PubKeyHash),
 			)
 			if err != nil {
 				k.log.Error(
@@ -1908,8 +1910,9 @@ func (k *Kernel) handleStateMachineAction(ctx context.Context, s *kState, act tm
 		var err error
 		updatedVote, err = k.cmspScheme.New(
 			act.Precommit.SignContent,
-			s.Voting.ValidatorSet.PubKeys,
-			string(s.Voting.ValidatorSet.PubKeyHash),
+			// As with prevotes, use the validator set of the view the vote goes into.
+			vrv.ValidatorSet.PubKeys,
+			string(vrv.ValidatorSet.PubKeyHash),
 		)
 		if err != nil {
 			k.log.Error(
